@@ -118,4 +118,103 @@ theorem dispatch_never_waits (f : Fix) (hf : f.f39 = true) (w : Llc) (p : Pdu) :
     split
     · exact dispatchAll_never_waits f hf w items
     · intro h; cases h
+
+/-! ## dispatch never raises and keeps the table well formed -/
+
+theorem idxN_lt {α} (l : List α) (i : Nat) (h : i < l.length) : ∃ a, idxN l i = .ok a ∧ l[i]? = some a := by
+  unfold idxN
+  have : l[i]? = some l[i] := List.getElem?_eq_getElem h
+  rw [this]; exact ⟨_, rfl, rfl⟩
+
+theorem llcOk_set (w : Llc) (hw : LlcOk w) (i : Nat) (e : Entry)
+    (h1 : i = 1 → ∃ dm n, e = .sdp dm n) : LlcOk { w with tab := setEntry w.tab i e } := by
+  obtain ⟨hl, ⟨dm, n, hs⟩, hn⟩ := hw
+  refine ⟨by simp [setEntry, hl], ?_, hn⟩
+  by_cases hi : i = 1
+  · obtain ⟨dm', n', he⟩ := h1 hi
+    subst hi; subst he
+    exact ⟨dm', n', by simp [setEntry, hl]⟩
+  · exact ⟨dm, n, by simp only [setEntry]; rw [List.getElem?_set_ne hi]; exact hs⟩
+
+theorem deliver_total (f : Fix) (hf : f.f39 = true) (w : Llc) (hw : LlcOk w) (p : SPdu) (hp : p.dsap < 64) :
+    ∃ w', deliver f w p = .ok (some w') ∧ LlcOk w' := by
+  obtain ⟨e, he, hget⟩ := idxN_lt w.tab p.dsap (by rw [hw.len]; exact hp)
+  unfold deliver
+  rw [he]
+  simp only [Py.bind_ok]
+  match e, hget with
+  | .empty, _ => exact ⟨w, rfl, hw⟩
+  | .sdp dm nres, _ =>
+    simp only
+    split
+    · exact ⟨_, rfl, llcOk_set w hw _ _ (fun _ => ⟨_, _, rfl⟩)⟩
+    · exact ⟨w, rfl, hw⟩
+  | .sap s, hget =>
+    simp only
+    obtain ⟨s', hs⟩ := sapEnqueue_some f hf s p
+    rw [hs]
+    refine ⟨_, rfl, llcOk_set w hw _ _ ?_⟩
+    intro h1
+    obtain ⟨dm, n, hsd⟩ := hw.sdp
+    rw [h1] at hget
+    rw [hsd] at hget
+    cases hget
+
+theorem rejectByName_total (w : Llc) (hw : LlcOk w) (ssap : Nat) (sn : Option Bytes) :
+    ∃ w', rejectByName w ssap sn = .ok (some w') ∧ LlcOk w' := by
+  obtain ⟨dm, n, hsd⟩ := hw.sdp
+  obtain ⟨e, he, hget⟩ := idxN_lt w.tab 1 (by rw [hw.len]; omega)
+  rw [hsd] at hget
+  cases hget
+  unfold rejectByName
+  rw [he]
+  exact ⟨_, rfl, llcOk_set w hw _ _ (fun _ => ⟨_, _, rfl⟩)⟩
+
+theorem lookupName_lt (w : Llc) (hw : LlcOk w) (sn : Option Bytes) (a : Nat) (h : lookupName w.snl sn = some a) : a < 64 := by
+  unfold lookupName at h
+  match sn, h with
+  | some n, h =>
+    simp only [Option.map_eq_some_iff] at h
+    obtain ⟨e, hf, rfl⟩ := h
+    exact hw.names e (List.mem_of_find?_eq_some hf)
+
+theorem dispatchS_total (f : Fix) (hf : f.f39 = true) (w : Llc) (hw : LlcOk w) (p : SPdu) (hp : SPduOk p) :
+    ∃ w', dispatchS f w p = .ok (some w') ∧ LlcOk w' := by
+  unfold dispatchS
+  split
+  · exact ⟨w, rfl, hw⟩
+  · split
+    · exact rejectByName_total w hw _ _
+    · exact rejectByName_total w hw _ _
+    · rename_i a _ hlk
+      have ha := lookupName_lt w hw _ a hlk
+      obtain ⟨e, he, _⟩ := idxN_lt w.tab a (by rw [hw.len]; exact ha)
+      rw [he]
+      simp only [Py.bind_ok]
+      split
+      · exact rejectByName_total w hw _ _
+      · exact deliver_total f hf w hw _ ha
+  · exact deliver_total f hf w hw p hp
+
+theorem dispatchAll_total (f : Fix) (hf : f.f39 = true) (ps : List SPdu) (w : Llc) (hw : LlcOk w)
+    (hp : ∀ q ∈ ps, SPduOk q) : ∃ w', dispatchAll f w ps = .ok (some w') ∧ LlcOk w' := by
+  induction ps generalizing w with
+  | nil => exact ⟨w, rfl, hw⟩
+  | cons p ps ih =>
+    obtain ⟨w1, h1, hw1⟩ := dispatchS_total f hf w hw p (hp p (by simp))
+    unfold dispatchAll
+    rw [h1]
+    simp only [Py.bind_ok]
+    exact ih w1 hw1 (fun q hq => hp q (by simp [hq]))
+
+theorem dispatch_total (f : Fix) (hf : f.f39 = true) (w : Llc) (hw : LlcOk w) (p : Pdu) (hp : PduOk p) :
+    ∃ w', dispatch f w p = .ok (some w') ∧ LlcOk w' := by
+  unfold dispatch
+  match p, hp with
+  | .simple q, hp => exact dispatchS_total f hf w hw q hp
+  | .agf d s items, hp =>
+    simp only
+    split
+    · exact dispatchAll_total f hf items w hw hp
+    · exact ⟨w, rfl, hw⟩
 end NfcVerif.Peer
